@@ -88,3 +88,20 @@ Definition defaults_ready (defs : dict) : Prop := forall k v, In (k, v) defs -> 
 (** ** per-voice parameters of a chord: a tuple gives one value per voice, anything else is shared *)
 Definition pv (v : val) (i : nat) : val := match v with VTup l => nth i l VNone | _ => v end.
 Definition covers (v : val) (n : nat) : Prop := match v with VTup l => (n <= length l)%nat | _ => True end.
+
+(** ** the device calls of a chord: voice i is switched on with its own (or the shared) amplitude and channel and
+       released duration * gate_i beats later *)
+Definition note_len (dur g : val) : val := match py_mul dur g with Ok v => v | _ => VNone end.
+Fixpoint voice_calls (notes : list val) (i : nat) (amp chan : val) : list call :=
+  match notes with
+  | [] => []
+  | n :: r => Call "note_on" [n; pv amp i; pv chan i] :: voice_calls r (S i) amp chan
+  end.
+Fixpoint voice_offs (notes : list val) (i : nat) (gate chan dur : val) : list noteoff :=
+  match notes with
+  | [] => []
+  | n :: r => (note_len dur (pv gate i), n, pv chan i) :: voice_offs r (S i) gate chan dur
+  end.
+(* how a key is given: a Key object or its name *)
+Definition key_denotes (kv : val) (k : key) : Prop :=
+  match kv with VKey k' => k' = k | VStr s => key_of_name s = Ok k | _ => False end.
